@@ -482,6 +482,9 @@ class Check:
         return self.finish()
 
     def finish(self):
+        if not self.violations and not self.harness_errors and self.merged.evaluations == 0:
+            # a run that explored nothing must never look like a pass
+            self.harness_errors.append("no case was executed (all workers produced empty results)")
         if self.harness_errors:
             log("[%s] HARNESS ERROR:\n%s" % (self.pid, self.harness_errors[0]))
         for path, msg in self.violations[:1]:
